@@ -4,4 +4,4 @@
 From Coq Require Import Extraction ExtrOcamlBasic.
 From PFF Require Import Bytes Driver.
 Extraction Language OCaml.
-Extraction "pffmodel.ml" all_bytes N_of_byte drv_vote.
+Extraction "pffmodel.ml" all_bytes N_of_byte drv_vote drv_diff drv_diffdir.
